@@ -49,7 +49,12 @@ def adversarial_sender(rng, tier, rate_limit=True, gens=False, stops=False):
             n = 0
         payload = gen.rand_payload(rng, n)
         op = {'op': 'send', 'i': 0, 'id': rid}
-        if gens and rng.random() < 0.5:
+        if gens and rng.random() < 0.08:
+            # declared size above 4095 (First Frame with the 32-bit length escape) and a generator that runs dry inside or right after it
+            room = max(0, txdl - 6 - pre)
+            actual = max(0, rng.choice([0, 1, room - 1, room, room + 1, room + c, room + 3 * c]))
+            op['gen'] = (rng.choice([4096, 5000, 100000]), gen.rand_payload(rng, actual))
+        elif gens and rng.random() < 0.5:
             actual = max(0, n + rng.choice([0, 0, -1, -2, -c, 1, 3, -n]))
             op['gen'] = (n, gen.rand_payload(rng, actual))
         else:
